@@ -672,54 +672,113 @@ structure SFAcc where
   envValues : List EnvField := []
   dflt : Option (List Val) := none
 
+/-- what one field contributes in the non-list case: the new assignment -/
+def sfArgsAssignment (prefix_ : Path) (method : String) (f' : Field) (newArg : Argument) (isConst : Bool)
+    (cs : List Constraint) : Outcome Assignment :=
+  if isConst then
+    match asScalar f'.ty with
+    | .ok (_, v, _) => .ok (constantAssignment (prefix_ ++ pathFromStructField f') v)
+    | .err e => .err e
+    | .panic s => .panic s
+  else
+    match withTypeConstraints newArg cs with
+    | .ok acs => .ok (argumentAssignment (prefix_ ++ pathFromStructField f') newArg method acs)
+    | .err e => .err e
+    | .panic s => .panic s
+
+/-- … and in the list case: the envelope member -/
+def sfArgsEnvValue (f' : Field) (newArg : Argument) (isConst : Bool) : Outcome EnvField :=
+  if isConst then
+    match asScalar f'.ty with
+    | .ok (_, v, _) => .ok { path := pathFromStructField f', value := if isNil v then .none else .const v }
+    | .err e => .err e
+    | .panic s => .panic s
+  else .ok { path := pathFromStructField f', value := .arg { id := 0, arg := newArg } }
+
+/-- `field.Type` after `if def, ok := defaults[field.Name]; ok { field.Type.Default = def }` -/
+def sfFieldType (defaults : List (String × Val)) (f : Field) : Ty :=
+  match mapGet f.name defaults with
+  | some d => f.ty.setMeta { f.ty.getMeta with dflt := d }
+  | none => f.ty
+
+/-- `newOpt.Default` after `if defaults[field.Name] != nil { … append … }` -/
+def sfDefault (defaults : List (String × Val)) (f : Field) (cur : Option (List Val)) : Option (List Val) :=
+  match mapGet f.name defaults with
+  | some d => if isNil d then cur else some (cur.getD [] ++ [d])
+  | none => cur
+
+/-- the body of the loop once the field's (default-carrying) type `ty` is known -/
+def sfArgsStepTy (prefix_ : Path) (method : String) (intoList : Bool) (f : Field) (ty : Ty)
+    (cs : List Constraint) (dflt : Option (List Val)) (acc : SFAcc) : Outcome SFAcc :=
+  match isConcreteScalar ty with
+  | .ok isConst =>
+    let args := if isConst then acc.args else acc.args ++ [{ name := f.name, ty := ty }]
+    if !intoList then
+      match sfArgsAssignment prefix_ method { f with ty := ty } { name := f.name, ty := ty } isConst cs with
+      | .ok a => .ok { args := args, assignments := acc.assignments ++ [a], envValues := acc.envValues, dflt := dflt }
+      | .err e => .err e
+      | .panic s => .panic s
+    else
+      match sfArgsEnvValue { f with ty := ty } { name := f.name, ty := ty } isConst with
+      | .ok ev => .ok { args := args, assignments := acc.assignments, envValues := acc.envValues ++ [ev], dflt := dflt }
+      | .err e => .err e
+      | .panic s => .panic s
+  | .err e => .err e
+  | .panic s => .panic s
+
+/-- one iteration of the field loop of `StructFieldsAsArgumentsAction` -/
+def sfArgsStep (explicit : Option (List String)) (prefix_ : Path) (method : String) (intoList : Bool)
+    (defaults : List (String × Val)) (f : Field) (acc : SFAcc) : Outcome SFAcc :=
+  if !explicitOK explicit f.name then .ok acc
+  else
+    match fieldConstraints f.ty with
+    | .ok cs => sfArgsStepTy prefix_ method intoList f (sfFieldType defaults f) cs (sfDefault defaults f acc.dflt) acc
+    | .err e => .err e
+    | .panic s => .panic s
+
 /-- the field loop of `StructFieldsAsArgumentsAction` -/
 def sfArgsLoop (explicit : Option (List String)) (prefix_ : Path) (method : String) (intoList : Bool)
     (defaults : List (String × Val)) : List Field → SFAcc → Outcome SFAcc
   | [], acc => .ok acc
   | f :: rest, acc =>
-    if !explicitOK explicit f.name then sfArgsLoop explicit prefix_ method intoList defaults rest acc
-    else
-      match fieldConstraints f.ty with
-      | .ok cs =>
-        let ty : Ty := match mapGet f.name defaults with
-          | some d => f.ty.setMeta { f.ty.getMeta with dflt := d }
-          | none => f.ty
-        let f' : Field := { f with ty := ty }
-        let newArg : Argument := { name := f.name, ty := ty }
-        match isConcreteScalar ty with
-        | .ok isConst =>
-          let args := if isConst then acc.args else acc.args ++ [newArg]
-          let step : Outcome (List Assignment × List EnvField) :=
-            if !intoList then
-              if isConst then
-                match asScalar ty with
-                | .ok (_, v, _) => .ok (acc.assignments ++ [constantAssignment (prefix_ ++ pathFromStructField f') v], acc.envValues)
-                | .err e => .err e
-                | .panic s => .panic s
-              else
-                match withTypeConstraints newArg cs with
-                | .ok acs => .ok (acc.assignments ++ [argumentAssignment (prefix_ ++ pathFromStructField f') newArg method acs], acc.envValues)
-                | .err e => .err e
-                | .panic s => .panic s
-            else
-              if isConst then
-                match asScalar ty with
-                | .ok (_, v, _) => .ok (acc.assignments, acc.envValues ++ [{ path := pathFromStructField f', value := if isNil v then .none else .const v }])
-                | .err e => .err e
-                | .panic s => .panic s
-              else .ok (acc.assignments, acc.envValues ++ [{ path := pathFromStructField f', value := .arg { id := 0, arg := newArg } }])
-          match step with
-          | .ok (as, evs) =>
-            let dflt := match mapGet f.name defaults with
-              | some d => if isNil d then acc.dflt else some (acc.dflt.getD [] ++ [d])
-              | none => acc.dflt
-            sfArgsLoop explicit prefix_ method intoList defaults rest { args := args, assignments := as, envValues := evs, dflt := dflt }
-          | .err e => .err e
-          | .panic s => .panic s
-        | .err e => .err e
-        | .panic s => .panic s
+    match sfArgsStep explicit prefix_ method intoList defaults f acc with
+    | .ok acc' => sfArgsLoop explicit prefix_ method intoList defaults rest acc'
+    | .err e => .err e
+    | .panic s => .panic s
+
+/-- `defaults` of `StructFieldsAsArgumentsAction`: the option's single default value when it is a map -/
+def sfDefaults (o : Opt) : List (String × Val) :=
+  match o.dflt with
+  | some [.map kvs] => kvs
+  | _ => []
+
+/-- the assignments of the new option, from the loop's result -/
+def sfArgsAssemble (asg0 : Assignment) (last : PathItem) (intoList : Bool) (acc : SFAcc) : Outcome (List Assignment) :=
+  if !intoList then .ok acc.assignments
+  else
+    match last.ty with
+    | .array elem _ => .ok [{ path := asg0.path, value := .env elem acc.envValues, method := "append" }]
+    | _ => .panic "AsArray"
+
+/-- `StructFieldsAsArgumentsAction` once the first argument is known to be the struct `fs` and the
+    option has a first assignment -/
+def sfArgsBuild (explicit : Option (List String)) (o : Opt) (oldArgsRest : List Argument) (asg0 : Assignment)
+    (oldAsgRest : List Assignment) (fs : List Field) : Outcome ActOut :=
+  match asg0.path.getLast? with
+  | none => .panic "Path.Last"
+  | some last =>
+    let intoList := kindIs last.ty "array"
+    match sfArgsLoop explicit asg0.path asg0.method intoList (sfDefaults o) fs {} with
+    | .ok acc =>
+      match sfArgsAssemble asg0 last intoList acc with
+      | .ok asgs =>
+        .ok { opts := [{ o with args := if oldArgsRest.isEmpty then acc.args else acc.args ++ oldArgsRest, argsId := 0,
+                                assignments := if oldArgsRest.isEmpty then asgs else asgs ++ oldAsgRest,
+                                dflt := acc.dflt }] }
       | .err e => .err e
       | .panic s => .panic s
+    | .err e => .err e
+    | .panic s => .panic s
 
 def structFieldsAsArgumentsAction (explicit : Option (List String)) (ss : Schemas) (o : Opt) : Outcome ActOut :=
   match o.args with
@@ -733,30 +792,7 @@ def structFieldsAsArgumentsAction (explicit : Option (List String)) (ss : Schema
         | [] => .panic "oldAssignments[0]"
         | asg0 :: oldAsgRest =>
           match asStructFields t with
-          | .ok fs =>
-            match asg0.path.getLast? with
-            | none => .panic "Path.Last"
-            | some last =>
-              let intoList := kindIs last.ty "array"
-              let defaults : List (String × Val) := match o.dflt with
-                | some [.map kvs] => kvs
-                | _ => []
-              match sfArgsLoop explicit asg0.path asg0.method intoList defaults fs {} with
-              | .ok acc =>
-                let asgs : Outcome (List Assignment) :=
-                  if !intoList then .ok acc.assignments
-                  else
-                    match last.ty with
-                    | .array elem _ => .ok [{ path := asg0.path, value := .env elem acc.envValues, method := "append" }]
-                    | _ => .panic "AsArray"
-                match asgs with
-                | .ok asgs =>
-                  let (args, asgs) := if oldArgsRest.isEmpty then (acc.args, asgs) else (acc.args ++ oldArgsRest, asgs ++ oldAsgRest)
-                  .ok { opts := [{ o with args := args, argsId := 0, assignments := asgs, dflt := acc.dflt }] }
-                | .err e => .err e
-                | .panic s => .panic s
-              | .err e => .err e
-              | .panic s => .panic s
+          | .ok fs => sfArgsBuild explicit o oldArgsRest asg0 oldAsgRest fs
           | .err e => .err e
           | .panic s => .panic s
     | .err e => .err e
@@ -842,33 +878,35 @@ def disjunctionStructOptions (o : Opt) (idx : Nat) (target : Argument) (fs : Lis
         clone.assignments,
       dflt := if isNil f.ty.getMeta.dflt then none else some [f.ty.getMeta.dflt] }
 
+/-- `DisjunctionAsOptionsAction` once `option.Args[argumentIndex]` is known to exist -/
+def disjunctionOnTarget (ss : Schemas) (o : Opt) (idx : Nat) (target : Argument) : Outcome ActOut :=
+  if kindIs target.ty "disjunction" then
+    match target.ty with
+    | .disj branches _ _ =>
+      match disjunctionBranchOptions o idx target branches with
+      | .ok os => .ok { opts := os }
+      | .err e => .err e
+      | .panic s => .panic s
+    | _ => .panic "AsDisjunction"
+  else if kindIs target.ty "ref" then
+    match resolveO ss (fuelFor ss) target.ty with
+    | .ok r =>
+      if !isStructGenFromDisj r then unchanged o
+      else
+        match r with
+        | .struct fs _ _ _ => .ok { opts := disjunctionStructOptions o idx target fs }
+        | _ => .panic "unreachable"
+    | .err e => .err e
+    | .panic s => .panic s
+  else unchanged o
+
 def disjunctionAsOptionsAction (argumentIndex : Int) (ss : Schemas) (o : Opt) : Outcome ActOut :=
   if o.args.isEmpty then unchanged o
   else if argumentIndex < 0 then .panic "option.Args[argumentIndex]"
   else
-    let idx := argumentIndex.toNat
-    match o.args[idx]? with
+    match o.args[argumentIndex.toNat]? with
     | none => .panic "option.Args[argumentIndex]"
-    | some target =>
-      if kindIs target.ty "disjunction" then
-        match target.ty with
-        | .disj branches _ _ =>
-          match disjunctionBranchOptions o idx target branches with
-          | .ok os => .ok { opts := os }
-          | .err e => .err e
-          | .panic s => .panic s
-        | _ => .panic "AsDisjunction"
-      else if kindIs target.ty "ref" then
-        match resolveO ss (fuelFor ss) target.ty with
-        | .ok r =>
-          if !isStructGenFromDisj r then unchanged o
-          else
-            match r with
-            | .struct fs _ _ _ => .ok { opts := disjunctionStructOptions o idx target fs }
-            | _ => .panic "unreachable"
-        | .err e => .err e
-        | .panic s => .panic s
-      else unchanged o
+    | some target => disjunctionOnTarget ss o argumentIndex.toNat target
 
 def unfoldBooleanAction (trueAs falseAs : String) (o : Opt) : Outcome ActOut :=
   match o.assignments with
